@@ -89,7 +89,7 @@ def abbreviate_space_both(s):
 def parse_abbreviated_size(s):
     if s is None or s == "":
         return None
-    m = re.match(r"^(\d+)([KMGTPE]?[I]?[B]?)$", s.upper())
+    m = re.match(r"^(\d+) ?([KMGTPE]?[I]?[B]?)$", s.upper())
     if not m:
         raise ValueError("unparseable value %s" % s)
     number, suffix = m.groups()
